@@ -570,6 +570,17 @@ def r3(x):
     return x
 
 
+def up1(x):
+    """noise-level measurements (float jitter of separately truncated networks differs from run to run): rounded *up*
+    to one significant digit, so that the reported number is an upper bound and reproducible"""
+    if isinstance(x, dict):
+        return {k: up1(v) for k, v in x.items()}
+    if isinstance(x, float) and x > 0:
+        e = int(np.floor(np.log10(x)))
+        return float(f"{np.ceil(x / 10.0 ** e * (1 - 1e-9)) * 10.0 ** e:.1g}")
+    return x
+
+
 def ckey(c):
     return tuple((k, str(c[k])) for k in sorted(c))
 
@@ -708,13 +719,13 @@ def run(tier, seed):
                 "coupled baths additionally need a measured bath influence (difference to the alpha=0 partner run) "
                 f">{BATH_MIN}",
         "samples": [xs[(seed * 37) % len(xs)], xs[len(xs) // 2 + 7], es[len(es) // 3]],
-        "max_dev": r3(maxdev.get(wname, 0.0)) if wname else 0.0,
+        "max_dev": up1(maxdev.get(wname, 0.0)) if wname else 0.0,
         "tolerance": f"truncation-limited: {C_TRUNC}*epsrel*n; exact scheme: {TOL_EXACT}; field vs Heun on own "
                      f"states: {TOL_HEUN}*n*max(1,|a|); record_all=False vs True: 1e-12",
-        "max_dev_over_tol": r3(worst),
+        "max_dev_over_tol": up1(worst),
         "worst_check": wname,
-        "max_dev_by_check": r3(maxdev),
-        "max_dev_over_tol_by_check": r3(maxrel),
+        "max_dev_by_check": up1(maxdev),
+        "max_dev_over_tol_by_check": up1(maxrel),
         "comparisons_over_tolerance_by_check": failing,
         "min_effect_sizes": r3(min_eff),
         "cases_with_bath_influence_gt_0.02": n_bath_active,
@@ -722,8 +733,8 @@ def run(tier, seed):
         "cases_with_field_feedback_gt_0.01": n_feedback_active,
         "mutant_rules": r3(mutant_stats),
         "monitored_states": monitored,
-        "monitor_worst_truncated": r3({"trace_dev": mon_worst[0], "herm_dev": mon_worst[1],
-                                       "min_eig": mon_worst[2]}),
+        "monitor_worst_truncated": {"trace_dev": up1(mon_worst[0]), "herm_dev": up1(mon_worst[1]),
+                                    "min_eig": r3(mon_worst[2])},
     }
     rep.assumptions = [
         "Hamiltonians and rates of the alphabet are affine in t and real-linear in the field, so that the exponential "
